@@ -880,14 +880,22 @@ class Origin:
         return "Origin(%s %s %s %s)" % (self.kind, self.data if self.kind != "call" else callee_name(self.data), self.fields, self.site.loc() if self.site else "")
 
 
-def origins(body, place_or_op, transparent=TRANSPARENT_CALLS, max_steps=2000, def_filter=None):
+def origins(body, place_or_op, transparent=TRANSPARENT_CALLS, max_steps=2000, def_filter=None, index_origins=False):
     """set of Origins a place/operand may derive its value from (peeling copies, refs, casts,
-    derefs, field projections and `transparent` calls' first argument)"""
+    derefs, field projections and `transparent` calls' first argument).  With index_origins, a place that indexes a slice / array
+    (`(*p)[i]`, a MIR projection, where a Vec would call Index::index) is an Origin 'index' with data {base place, idx local | cidx}"""
     out = {}
     seen = set()
     work = []
 
     def push_place(p, fields):
+        if index_origins:
+            for k, e in enumerate(p["p"]):
+                if isinstance(e, dict) and ("idx" in e or "cidx" in e):
+                    rest = {"l": 0, "p": p["p"][k + 1 :]}
+                    o = Origin("index", body, None, {"base": {"l": p["l"], "p": p["p"][:k]}, "idx": e.get("idx"), "cidx": e.get("cidx")}, tuple(place_fields(rest)) + tuple(fields))
+                    out[o.key()] = o
+                    return
         flds = tuple(place_fields(p)) + tuple(fields)
         work.append((p["l"], flds))
 
